@@ -27,7 +27,7 @@ def to_c(line):
 
 def generate(rng, tier):
     cases = []
-    for _ in range(170 if tier == "quick" else 4000):
+    for _ in range(gen.N(tier, 170, 4000)):
         S = rng.choice(["Q", "F"])
         oob = False
         L1, LN = gen.LAYS_1D, gen.LAYS_ND
@@ -98,7 +98,7 @@ def generate(rng, tier):
         cases.append({"line": line, "meta": {"oob": oob}})
     # failing calls on scalar-lane data with rank-2 queries in non-C layouts: the element at (0,1) and the one at (1,0) are both
     # rejected, with different values; row-major order reaches (0,1) first, column-major order would reach (1,0) first
-    for _ in range(16 if tier == "quick" else 300):
+    for _ in range(gen.N(tier, 16, 300)):
         S = rng.choice(["Q", "F"])
         qshape = rng.choice([[2, 3], [3, 2], [2, 2]])
         nq = gen.shape_size(qshape)
